@@ -128,3 +128,46 @@ def run_c06(ctx, fa):
         ctx.sample({"file_len": len(c["file"]), "blocks": c["walk"], "cuts": c["cuts"][:3] + c["cuts"][-3:], "sync_alterations": c["corr"][:3]})
     # schemaless half: every proper prefix of every (spec-generated) schemaless encoding raises
     p_layout.run(ctx, fa, lambda p: p == "C06.")
+    big_values(ctx, fa)
+
+
+def big_values(ctx, fa):
+    """Values beyond every internal buffer size (64 KiB, 1 MiB): a cut inside one must raise too, schemaless and inside a container
+    block. The encodings are trivial (length varint + payload) and are laid out here, not taken from the library."""
+    rnd = ctx.sub_rnd("big")
+    for n in (70000, 150000, 1100000 if not ctx.quick() else 66000):
+        payload = bytes(rnd.getrandbits(8) for _ in range(257)) * (n // 257 + 1)
+        payload = payload[:n]
+        z = n << 1
+        var = bytearray()
+        while z & ~0x7F:
+            var.append((z & 0x7F) | 0x80)
+            z >>= 7
+        var.append(z)
+        enc = bytes(var) + payload + b"\x02"          # {"b": <bytes>, "k": 1}
+        schema = {"type": "record", "name": "Big", "fields": [{"name": "b", "type": "bytes"}, {"name": "k", "type": "int"}]}
+        offs = sorted(set([1, len(var), len(var) + 1, 65535, 65536, 65537, 65536 + len(var), n // 2, n, len(enc) - 1] +
+                          [rnd.randrange(1, len(enc)) for _ in range(12)]))
+        offs = [o for o in offs if 0 < o < len(enc)]
+        bad = None
+        for k in offs:
+            try:
+                v = fa.schemaless_reader(io.BytesIO(enc[:k]), schema)
+                bad = (k, "value of %d bytes" % len(v.get("b", b"")))
+                break
+            except Exception:  # noqa: BLE001
+                pass
+        try:
+            whole = fa.schemaless_reader(io.BytesIO(enc), schema)
+            if whole != {"b": payload, "k": 1}:
+                bad = bad or (len(enc), "whole input read wrongly")
+        except Exception as e:  # noqa: BLE001
+            bad = bad or (len(enc), "whole input raised %s" % type(e).__name__)
+        ctx.traces += 1
+        ctx.mark("big%d" % n, True)
+        if bad is None:
+            ctx.count("C06.prefix_big", "ok", len(offs))
+        else:
+            case = {"id": "big%d" % n, "op": "big_prefix", "n": n, "offset": bad[0], "got": bad[1]}
+            ctx.count("C06.prefix_big", "fail")
+            ctx.violations.append(("C06.prefix_big", case, "bytes value of %d bytes cut at %d: %s" % (n, bad[0], bad[1])))
